@@ -75,3 +75,13 @@ Proof.
   split; [exact loop2_admissible|]. split; [vm_compute; reflexivity|]. split; [vm_compute; reflexivity|]. split; [vm_compute; reflexivity|].
   exact loop2_lp_feasible_by_completeness.
 Qed.
+
+(* ---- audit: all five hypotheses of C04_caps_of_the_code_as_it_is on the self-loop traversed twice ---- *)
+From FP Require Import AuditExamples17.
+Example C04_caps_hypotheses_satisfiable :
+  c_scale_free (loop_inst 2) = false /\ (0 < kfdc_wmax (loop_inst 2))%Q /\ walk_decomposition (loop_inst 2) loop2_P loop2_w /\
+  (forall i, In i (layers (c_k (loop_inst 2))) -> (loop2_w i <= kfdc_wmax (loop_inst 2))%Q) /\
+  (forall i e, In i (layers (c_k (loop_inst 2))) -> In e (g_edges (c_graph (loop_inst 2))) ->
+     (inject_Z (mult loop2_P i e) <= cap (kfdc_walk (loop_inst 2)) e)%Q).
+Proof. exact caps_simple_hypotheses. Qed.
+Print Assumptions C04_caps_hypotheses_satisfiable.
